@@ -507,6 +507,9 @@ func finish(chk *Check, tier string, seed int64, total *Partial, wall time.Durat
 		newV++
 		h := sha256.Sum256([]byte(s))
 		dir := filepath.Join(VerifDir, "replays", chk.ID)
+		if os.Getenv("VERIF_NO_EVIDENCE") != "" {
+			dir = filepath.Join("/tmp/verif-scratch-evidence", "replays", chk.ID)
+		}
 		os.MkdirAll(dir, 0755)
 		path := filepath.Join(dir, hex.EncodeToString(h[:6])+".json")
 		rb, _ := json.MarshalIndent(map[string]any{"property": chk.ID, "signature": s, "message": v.Msg, "count": v.Count, "replay": v.Replay, "tier": tier, "seed": seed}, "", " ")
@@ -561,9 +564,13 @@ func finish(chk *Check, tier string, seed int64, total *Partial, wall time.Durat
 		"wall_s":      float64(int(wall.Seconds()*100)) / 100,
 		"violations":  newV,
 	}
-	os.MkdirAll(filepath.Join(VerifDir, "evidence"), 0755)
+	evDir := filepath.Join(VerifDir, "evidence")
+	if os.Getenv("VERIF_NO_EVIDENCE") != "" {
+		evDir = "/tmp/verif-scratch-evidence" // a run against a scratch tree must not overwrite the evidence of /repo
+	}
+	os.MkdirAll(evDir, 0755)
 	eb, _ := json.MarshalIndent(ev, "", " ")
-	os.WriteFile(filepath.Join(VerifDir, "evidence", chk.ID+".json"), append(eb, '\n'), 0644)
+	os.WriteFile(filepath.Join(evDir, chk.ID+".json"), append(eb, '\n'), 0644)
 	fmt.Printf("%s %s: evaluations=%d distinct_nontrivial=%d exhaustive=%v wall=%.1fs", chk.ID, tier, total.Evaluations, total.Nontrivial, exhaustive, wall.Seconds())
 	keys := []string{}
 	for k := range total.Counters {
